@@ -30,6 +30,8 @@ func init() {
 			{ID: "C05.R11", Floor: 1, Run: c05r11, Text: "target map ⇄ table target: every insert archetypeMap[K] = T is preceded on every path by a call that sets T's RelationTarget to the same K (Init or Activate of that table); every delete from the map uses the removed table's own RelationTarget as key"},
 			{ID: "C05.R12", Floor: 2, Run: moversKeepDeadTargets, Text: "the target is unchanged by adding or removing other components, alive or not (= C06.R8)"},
 			{ID: "C05.R13", Floor: 20, Run: flagArgsNotComputed, Text: "option flags are not computed from values: at every call of an internal function with an (ID, bool) parameter pair the bool argument is a constant, a forwarded bool parameter, a stored flag or a presence test of a variadic argument - never derived from the value (the zero ID / zero entity are valid values)"},
+			{ID: "C05.R14", Floor: 2, Run: relationGuardCallee, Text: "'the table has a relation component' is Mask.ContainsAny(IsRelation) wherever a mask is tested against the set of relation types"},
+			{ID: "C05.R15", Floor: 4, Run: variadicTargetForwarded, Text: "a given target is forwarded: in a method with a variadic Entity parameter, nothing reachable from the `len(target) > 0` edge calls an internal creator with its has-target flag constant false"},
 		},
 	})
 }
